@@ -6,6 +6,7 @@ import (
 	"compress/gzip"
 	"compress/zlib"
 	"context"
+	"encoding/json"
 	"errors"
 	"fmt"
 	"io"
@@ -22,6 +23,7 @@ import (
 
 	restful "github.com/emicklei/go-restful/v3"
 
+	"verifharness/internal/rng"
 	"verifharness/internal/routing"
 )
 
@@ -41,6 +43,43 @@ type trace struct {
 	// leaks: reserved parameters a stage saw that this request had not written
 	ppOwn map[[2]string]bool
 	leaks [][2]string
+	// body: the request's entity as sent (what a "re" act puts back before it reads)
+	body []byte
+}
+
+// pickyEntity is an entity type of the application whose decoding can panic (a json.Unmarshaler that
+// does not like what it is given).
+type pickyEntity struct {
+	panicWith string
+	Name      string
+}
+
+func (p *pickyEntity) UnmarshalJSON(data []byte) error {
+	if p.panicWith != "" {
+		panic(panicValue(p.panicWith))
+	}
+	var v struct{ Name string }
+	err := json.Unmarshal(data, &v)
+	p.Name = v.Name
+	return err
+}
+
+// encodeBody renders a request entity under a Content-Encoding.
+func encodeBody(doc, enc string) []byte {
+	var buf bytes.Buffer
+	switch enc {
+	case "gzip":
+		zw := gzip.NewWriter(&buf)
+		zw.Write([]byte(doc))
+		zw.Close()
+	case "deflate":
+		zw := zlib.NewWriter(&buf)
+		zw.Write([]byte(doc))
+		zw.Close()
+	default:
+		buf.WriteString(doc)
+	}
+	return buf.Bytes()
 }
 
 func traceOf(r *http.Request) *trace {
@@ -196,6 +235,16 @@ func runActs(as []Act, req *restful.Request, w http.ResponseWriter) {
 				if ps := req.PathParameters(); ps != nil {
 					ps[a.B] = a.V
 				}
+			}
+		case "re":
+			// the stage reads the request's entity; the body is put back first (a stage before may have
+			// read it), as middlewares that buffer the body do
+			if req != nil {
+				if t := traceOf(req.Request); t != nil && t.body != nil {
+					req.Request.Body = io.NopCloser(bytes.NewReader(t.body))
+				}
+				v := pickyEntity{panicWith: a.B}
+				req.ReadEntity(&v)
 			}
 		case "we":
 			if r, ok := w.(*restful.Response); ok {
@@ -472,9 +521,20 @@ func Build(cfg *Cfg) (c *restful.Container, err error) {
 	for _, f := range cfg.CF {
 		c.Filter(mkFilter(f, "cf"+strconv.Itoa(f.ID)))
 	}
+	var reuse *rng.R
+	if cfg.Reuse != 0 {
+		reuse = rng.New(cfg.Reuse)
+	}
+	if cfg.Churn&4 != 0 {
+		churnThrowAway(c)
+	}
+	var lastWS *restful.WebService
 	for _, s := range cfg.Routing.Services {
 		ws := new(restful.WebService)
 		ws.Path(s.Root)
+		if reuse != nil {
+			ws.SetDynamicRoutes(true) // RemoveRoute is allowed
+		}
 		if len(s.Consumes) > 0 {
 			ws.Consumes(s.Consumes...)
 		}
@@ -496,17 +556,36 @@ func Build(cfg *Cfg) (c *restful.Container, err error) {
 		case 3:
 			giveFilters(1)
 		}
+		// the RouteBuilder that built the previous route of this WebService, and what it carries
+		var b *restful.RouteBuilder
+		var bConds, bFilters []int
+		bEnc := false
 		for _, r := range s.Routes {
 			rx := cfg.RouteX[r.ID]
 			// method, path, Consumes/Produces, If-conditions, AllowedMethodsWithoutContentType as the
 			// routing stream registers them; the route function is replaced below
-			b := routing.RouteBuilder(ws, s, r)
-			b.If(condPanicFn)
-			for _, f := range rx.Filters {
+			newFilters := rx.Filters
+			if reuse != nil && b != nil && reuse.Chance(3, 4) && extendsInts(r.Conds, bConds) && extendsFilters(rx.Filters, bFilters) && (!bEnc || rx.Enc != nil) {
+				// the same RouteBuilder value once more: Method, Path, … To are said anew, conditions and
+				// filters it carries stay (If and Filter append)
+				extra := r
+				extra.Conds = r.Conds[len(bConds):]
+				routing.Reconfigure(b, s, extra)
+				newFilters = rx.Filters[len(bFilters):]
+				BuildersReused++
+			} else {
+				b = routing.RouteBuilder(ws, s, r)
+				b.If(condPanicFn)
+				bFilters, bEnc = nil, false
+			}
+			bConds = append([]int{}, r.Conds...)
+			for _, f := range newFilters {
 				b.Filter(mkFilter(f, "rf"+strconv.Itoa(f.ID)))
+				bFilters = append(bFilters, f.ID)
 			}
 			if rx.Enc != nil {
 				b.ContentEncodingEnabled(*rx.Enc)
+				bEnc = true
 			}
 			stage, script := "h"+strconv.Itoa(r.ID), rx.Script
 			b.To(func(req *restful.Request, resp *restful.Response) {
@@ -518,11 +597,52 @@ func Build(cfg *Cfg) (c *restful.Container, err error) {
 				giveFilters(1)
 			}
 		}
+		// the route declared last is taken out and registered again from the builder that was kept
+		// (when no other route of the WebService has its method and path: RemoveRoute takes them all)
+		readd := func() {
+			rts := ws.Routes()
+			if b == nil || len(rts) == 0 {
+				return
+			}
+			last := rts[len(rts)-1]
+			for _, o := range rts[:len(rts)-1] {
+				if o.Method == last.Method && o.Path == last.Path {
+					return
+				}
+			}
+			if ws.RemoveRoute(last.Path, last.Method) == nil {
+				ws.Route(b)
+				RoutesReadded++
+			}
+		}
+		readdWhen := 0
+		if reuse != nil {
+			readdWhen = reuse.Intn(3) // 0 = not at all, 1 = before Container.Add, 2 = after it
+		}
+		if readdWhen == 1 {
+			readd()
+		}
 		if cfg.Order == 1 {
 			giveFilters(len(pending))
 		}
 		c.Add(ws)
+		lastWS = ws
+		if readdWhen == 2 {
+			readd()
+		}
 		giveFilters(len(pending)) // orders 2 and 3: what is left is registered on the service after Container.Add
+	}
+	if cfg.Churn&1 != 0 {
+		churnThrowAway(c)
+	}
+	if cfg.Churn&2 != 0 && lastWS != nil {
+		// the WebService added last is taken off the container and added again (the order of the
+		// WebServices, which routing looks at, stays)
+		if err := c.Remove(lastWS); err != nil {
+			return nil, fmt.Errorf("build: Container.Remove: %v", err)
+		}
+		c.Add(lastWS)
+		Churned++
 	}
 	plain := http.HandlerFunc(func(w http.ResponseWriter, r *http.Request) {
 		logStage(nil, r, w, "plain", false)
@@ -531,6 +651,43 @@ func Build(cfg *Cfg) (c *restful.Container, err error) {
 	c.Handle(PlainPath, plain)
 	c.HandleWithFilter(PlainFPath, plain)
 	return c, nil
+}
+
+// BuildersReused, RoutesReadded, Churned measure the registration histories Build went through.
+var BuildersReused, RoutesReadded, Churned int
+
+// churnThrowAway adds a WebService that is not part of the table to c and removes it again.
+func churnThrowAway(c *restful.Container) {
+	ws := new(restful.WebService)
+	ws.Path("/verif-throw-away")
+	ws.Route(ws.GET("/").To(func(*restful.Request, *restful.Response) {}))
+	c.Add(ws)
+	c.Remove(ws)
+	Churned++
+}
+
+func extendsInts(l, prefix []int) bool {
+	if len(l) < len(prefix) {
+		return false
+	}
+	for i, x := range prefix {
+		if l[i] != x {
+			return false
+		}
+	}
+	return true
+}
+
+func extendsFilters(fs []Filter, prefix []int) bool {
+	if len(fs) < len(prefix) {
+		return false
+	}
+	for i, id := range prefix {
+		if fs[i].ID != id {
+			return false
+		}
+	}
+	return true
 }
 
 // BuildFor is Build for a history: with cfg.Late the last container filter and the last filter of every
@@ -683,6 +840,13 @@ func serveImpl(c *restful.Container, cfg *Cfg, r SReq, led *Ledger, sequential b
 	if r.CondPanic != "" {
 		hr.Header.Set(condPanicHeader, r.CondPanic)
 	}
+	if r.BodyDoc != "" {
+		t.body = encodeBody(r.BodyDoc, r.BodyEnc)
+		hr.Body = io.NopCloser(bytes.NewReader(t.body))
+		if r.BodyEnc != "" {
+			hr.Header.Set("Content-Encoding", r.BodyEnc)
+		}
+	}
 	ctx := context.WithValue(context.Background(), ctxKey{}, t)
 	if gate != nil && len(cfg.CF) > 0 {
 		ctx = context.WithValue(context.WithValue(ctx, gateKey{}, gate), gateFirstKey{}, "cf"+strconv.Itoa(cfg.CF[0].ID))
@@ -693,6 +857,7 @@ func serveImpl(c *restful.Container, cfg *Cfg, r SReq, led *Ledger, sequential b
 		rec.Header().Set("Content-Encoding", r.Prior)
 	}
 	a0, r0, d0 := led.Snapshot()
+	ra0, rr0 := led.SnapshotReaders()
 	l0 := libLog.count()
 	res = &Result{}
 	func() {
@@ -717,7 +882,9 @@ func serveImpl(c *restful.Container, cfg *Cfg, r SReq, led *Ledger, sequential b
 	}()
 	a1, r1, d1 := led.Snapshot()
 	res.KeepErr = cfg.CustomErr && !r.RouterErr // no service-error writer runs for an error that is not a ServiceError
-	res.Acq, res.Rel, res.DblRel = a1-a0, r1-r0, d1-d0
+	ra1, rr1 := led.SnapshotReaders()
+	res.RdAcq, res.RdRel = ra1-ra0, rr1-rr0
+	res.Acq, res.Rel, res.DblRel = a1-a0-res.RdAcq, r1-r0-res.RdRel, d1-d0
 	res.Recov = t.recov
 	if sequential {
 		res.RecovDefault = libLog.count() - l0
